@@ -446,6 +446,30 @@ func ruleR06c(c *Ctx) {
 	info := p.TypesInfo
 	nr := newNoRet(c)
 	stores := 0
+	// map-typed fields indexed by any function of the package other than Add
+	lookedUp := map[types.Object]bool{}
+	for _, f := range p.Syntax {
+		for _, d := range f.Decls {
+			od, ok := d.(*ast.FuncDecl)
+			if !ok || od == fd || od.Body == nil {
+				continue
+			}
+			ast.Inspect(od.Body, func(x ast.Node) bool {
+				ix, ok := x.(*ast.IndexExpr)
+				if !ok {
+					return true
+				}
+				if fsel, ok := ast.Unparen(ix.X).(*ast.SelectorExpr); ok {
+					if fv, ok := info.Uses[fsel.Sel].(*types.Var); ok && fv.IsField() {
+						if _, ok := fv.Type().Underlying().(*types.Map); ok {
+							lookedUp[fv] = true
+						}
+					}
+				}
+				return true
+			})
+		}
+	}
 	guardWalkStmts(fd.Body, nr.forInfo(info), func(s ast.Stmt, facts factSet) {
 		as, ok := s.(*ast.AssignStmt)
 		if !ok || len(as.Lhs) != 1 {
@@ -460,6 +484,10 @@ func ruleR06c(c *Ctx) {
 			return
 		}
 		if _, ok := tv.Type.Underlying().(*types.Map); !ok {
+			return
+		}
+		// only the tables the registry's other methods (the position look-ups) read
+		if fsel, ok := ast.Unparen(ix.X).(*ast.SelectorExpr); !ok || !lookedUp[info.Uses[fsel.Sel]] {
 			return
 		}
 		stores++
